@@ -287,7 +287,8 @@ impl GenerationCache {
         struct ConfigHashData<'a> {
             validation_library: &'a str,
             include_private: bool,
-            type_mappings: Option<&'a HashMap<String, String>>,
+            // sorted: the hash must not depend on the iteration order of the map
+            type_mappings: Option<std::collections::BTreeMap<&'a String, &'a String>>,
             default_parameter_case: &'a str,
             default_field_case: &'a str,
         }
@@ -295,7 +296,10 @@ impl GenerationCache {
         let hash_data = ConfigHashData {
             validation_library: &config.validation_library,
             include_private: config.include_private.unwrap_or(false),
-            type_mappings: config.type_mappings.as_ref(),
+            type_mappings: config
+                .type_mappings
+                .as_ref()
+                .map(|mappings| mappings.iter().collect()),
             default_parameter_case: &config.default_parameter_case,
             default_field_case: &config.default_field_case,
         };
